@@ -146,7 +146,12 @@ PROPS = {
     "C08": {"gen": g_c08, "fields": ("out_keys", "arms"), "functional": True, "n": (300, 6000),
             "relations": [("keys_shape_invariant", g_c08, REL.run_c08, (300, 6000))],
             "rule": "histories interleaving arm changes, training, warm start and queries with m in {None,1,2,3,5}; label styles int/str/float; "
-                    "only arms, keys, key order and result shapes are compared; non-trivial = >= 1 query"},
+                    "half of the contextual cases run with n_jobs in {2,3,4,-1} (threading) and extra queries of 2..9 rows around the job count; "
+                    "only arms, keys, key order and result shapes are compared; non-trivial = >= 1 query",
+            "assumptions": ["theorems assume the generator hypotheses rng_lengths_ok (a draw answers with the requested number of values) and rng_index_ok "
+                            "(rng.choice(n) / rng.integers(0,n) answer below n); the shape clause for Radius/KNearest/LSH/Clusters assumes that the job partition "
+                            "covers the rows and that k-means assigns existing clusters - both are observed on every run (partition table against the proved partition_sizes in C05; "
+                            "result lengths in the C08 relation)"]},
     "C09": {"gen": g_c09, "fields": ("out",), "functional": False, "n": (150, 2000),
             "relations": [("predict_is_argmax", g_c09, REL.run_c09, (300, 6000))],
             "rule": "at every query point of a random history, predict on one deep copy vs first arg-max of predict_expectations on another; "
